@@ -80,7 +80,8 @@ mod verif_driver {
             "load_config" => {
                 // cwd-relative search for typeshare.toml (find_configuration_file) + load
                 std::env::set_current_dir(req["cwd"].as_str().unwrap()).unwrap();
-                match config::load_config(None) {
+                let explicit = req["path"].as_str().map(PathBuf::from);
+                match config::load_config(explicit.as_deref()) {
                     Ok(c) => json!({"ok": serde_json::to_value(&c).unwrap()}),
                     Err(e) => json!({"rejected": format!("{e}")}),
                 }
